@@ -27,6 +27,11 @@ POST = ["run_post_create", "run_post_modify", "run_post_batch_modify", "run_post
 
 
 def run(ctx):
+    _run_main(ctx)
+    deleted_means_recycled_or_tombstone(ctx)
+
+
+def _run_main(ctx):
     ctx.explanation = ("K2 hook completeness: ReferentialIntegrity's own (non-default) hook is present, unconditional and propagated in the "
                        "seven post-write registries, ordered last in post-repl-incremental-conflict and before MemberOf in post-repl-incremental; "
                        "every write operation runs the matching post registry after the backend write on all success paths. "
@@ -90,3 +95,31 @@ def reference_removal_visits_everything(ctx):
         if total >= 20:
             break
     ctx.floor(R, "bodies with a short-circuit adapter in kanidmd_lib (scanner control)", total, 20)
+
+
+# ---------------------------------------------------------------------------------------------------------------------
+# On incremental replication an entry can arrive recycled *or* already tombstoned (the supplier's recycle bin was purged in
+# between). post_repl_incremental must treat both as "deleted" when it decides whose references to remove: its liveness
+# tests use Entry::mask_recycled_ts on the pre- and the post-image, never one of the partial predicates (mask_recycled lets
+# tombstones through, mask_tombstone lets recycled entries through).
+
+def deleted_means_recycled_or_tombstone(ctx):
+    from .lib.hir import all_calls, callee_of
+    R_ = "K4-deleted-means-recycled-or-tombstone"
+    names = ctx.facts.find_fns("kanidmd_lib", r"^kanidmd_lib::<plugins::refint::ReferentialIntegrity as plugins::Plugin>::post_repl_incremental$")
+    if not ctx.check(len(names) == 1, R_, "kanidmd_lib::plugins::refint", "hook-found", "post_repl_incremental found",
+                     f"expected one ReferentialIntegrity::post_repl_incremental, found {len(names)} (anchor drift)"):
+        return
+    fn = ctx.fn("kanidmd_lib", names[0])
+    calls = [c for c in all_calls(fn["body"]) if not c.get("exp")]
+    full = [c for c in calls if callee_of(c).endswith("::mask_recycled_ts")]
+    partial = [c for c in calls if callee_of(c).endswith("::mask_recycled") or callee_of(c).endswith("::mask_tombstone")]
+    rem = [c for c in calls if callee_of(c).endswith("::remove_references")]
+    ctx.check(len(rem) >= 1, R_, fn["fn"], "removes-references", "remove_references called",
+              "post_repl_incremental no longer calls remove_references: references to entries deleted by replication are never removed",
+              file=fn["file"], line=fn["line"])
+    ctx.check(len(full) >= 2 and not partial, R_, fn["fn"], "liveness:mask_recycled_ts(pre,post)",
+              f"{len(full)} liveness tests with mask_recycled_ts, none with a partial predicate",
+              f"post_repl_incremental decides which entries became deleted with {sorted({callee_of(c).rsplit('::', 1)[-1] for c in partial}) or 'fewer than two mask_recycled_ts tests'}"
+              f" (mask_recycled_ts calls: {len(full)}): an entry that arrives already tombstoned (or recycled) is not treated as deleted, remove_references is not run for it "
+              "and live entries keep pointing at it", file=fn["file"], line=(partial[0] if partial else fn).get("line"))
